@@ -40,7 +40,10 @@ TEXT_CLASSES = {
     "bracket": st.one_of(_WORD.map(lambda w: "[" + w + "]"), _WORD.map(lambda w: "[" + w),
                          _WORD.map(lambda w: w + "]"),
                          st.tuples(_WORD, _WORD).map(lambda t: "[%s,%s]" % t),
-                         st.tuples(_WORD, _WORD).map(lambda t: "[%s, %s]" % t)),
+                         st.tuples(_WORD, _WORD).map(lambda t: "[%s, %s]" % t),
+                         # bracketed only after trimming
+                         st.tuples(_WORD, _WORD).map(lambda t: "  [%s, %s]\n" % t),
+                         _WORD.map(lambda w: " [" + w + "] ")),
     "newline": _join(_WORD, st.sampled_from(["\n", "\r\n", "\t", "\n\n"]), _WORD),
     "edgeblank": st.one_of(_WORD.map(lambda w: " " + w), _WORD.map(lambda w: w + " "),
                            _WORD.map(lambda w: "\t" + w + "\n"), _WORD.map(lambda w: "  " + w + "  ")),
